@@ -123,6 +123,9 @@ def _gen_partition(rng):
     case = {"call": "partition_by_column", "s": s, "d": d, "v": vols, "pb": pb, "form": form}
     if rng.random() < 0.04:
         case["pb"] = rng.choice(INVALID_MODES + ["auto"])
+        if rng.random() < 0.25:
+            # an unknown mode name is refused whatever the lists hold - also when they hold nothing
+            case["s"], case["d"], case["v"] = [], [], []
     return case
 
 
@@ -196,9 +199,7 @@ def judge_partition(ctx, s, d, v, pb, out, exc, where):
         **(extra or {}),
     )
     if not (isinstance(pb, str) and pb in VALID):
-        if n == 0:
-            ctx.count("invalid_mode_with_empty_input(not judged)")
-        elif pb == "auto":
+        if pb == "auto":
             ctx.count("auto_passed_to_partition_by_column(not judged)")
         else:
             ctx.count("invalid_mode")
